@@ -11,19 +11,18 @@ Definition section_of (b : option bundle) (g : option string) : option section :
   | None => None
   | Some b =>
     if bundle_falsy b then None
-    else if group_truthy g then
-      match groups b with
-      | None => None
-      | Some gs => if is_nil gs then None
-                   else match g with
-                        | None => None
-                        | Some gname => match slookup gname gs with
-                                        | None => None
-                                        | Some s => if is_nil s then None else Some s
-                                        end
-                        end
-      end
-    else preset b
+    else match g with
+         | Some gname =>
+           match groups b with
+           | None => None
+           | Some gs => if is_nil gs then None
+                        else match slookup gname gs with
+                             | None => None
+                             | Some s => if is_nil s then None else Some s
+                             end
+           end
+         | None => preset b
+         end
   end.
 
 Lemma relevant_section_of : forall P pn g, relevant_section P pn g = section_of (slookup pn P) g.
@@ -40,13 +39,13 @@ Definition same_decisions (a b : option bundle) : Prop :=
 Lemma load_vs_meaning : forall b, same_decisions (load_body b) (meaning_body b).
 Proof.
   intros [pre grp|s] g ot; simpl.
-  - destruct pre as [[|e p]|], grp as [[|e' q]|]; simpl; destruct (group_truthy g) eqn:Eg; simpl;
+  - destruct pre as [[|e p]|], grp as [[|e' q]|]; simpl; destruct g as [gn|]; simpl;
       try reflexivity; try exact I;
-      try (destruct g as [gn|]; [|discriminate]; destruct (String.eqb gn (fst e')) eqn:E; simpl);
+      try (destruct (String.eqb gn (fst e')) eqn:E; simpl);
       repeat match goal with
              | |- context [match ?x with _ => _ end] => destruct x; simpl
              end; try reflexivity; try exact I.
-  - destruct s as [|e t]; simpl; [exact I|]. destruct (group_truthy g); simpl; [exact I|reflexivity].
+  - destruct s as [|e t]; simpl; [exact I|]. destruct g; simpl; [exact I|reflexivity].
 Qed.
 
 Lemma is_allowed_same : forall P P' pn u g owner ot op,
@@ -126,10 +125,9 @@ Qed.
 
 (* hence whatever is allowed under a loaded file is granted by the DOCUMENT *)
 Lemma loaded_file_sound_l : forall base d pn id owner ot op,
-  wf_identity id ->
   allowed_by_policy (overlay base (load_document d)) pn id owner ot op = true ->
   granted_spec (overlay base (document_meaning d)) pn id owner ot op.
 Proof.
-  intros base d pn id owner ot op Hwf H. rewrite loading_preserves_decisions_l in H.
-  now apply decision_sound_partial_l.
+  intros base d pn id owner ot op H. rewrite loading_preserves_decisions_l in H.
+  now apply decision_sound_l.
 Qed.
